@@ -2,6 +2,7 @@
 use crate::framework::CheckDef;
 
 pub mod c07;
+pub mod c09;
 pub mod c25;
 pub mod dsio;
 pub mod c26;
@@ -12,6 +13,7 @@ pub fn register(v: &mut Vec<CheckDef>) {
     v.push(dsio::def_c02());
     v.push(dsio::def_c04());
     v.push(c07::def());
+    v.push(c09::def());
     v.push(c25::def());
     v.push(c26::def());
     v.push(c27::def());
